@@ -15,6 +15,7 @@ import shutil
 import subprocess
 
 import common
+import hq_model
 import signatures
 
 # profiles of the harness that matter for each property
@@ -31,6 +32,23 @@ PROFILES = {
     "C13": ["open", "stream", "maxfails", "mixed", "cancel"],
     "C14": ["maxfails", "mixed"],
 }
+
+# behaviours simulated by TLC from the model and replayed on the real code: tier -> (behaviours per instance, depth)
+SIM_BUDGET = {"quick": (120, 70), "thorough": (1500, 90)}
+
+# invariants / step properties of the model that belong to each property (all are checked in every MC run)
+def mc_formulas(pid):
+    fs = [f for f in hq_model.INVARIANTS + hq_model.EAGER_ONLY + hq_model.STEP_PROPS if f.startswith(pid + "_")]
+    if pid == "C09":
+        fs.append("NoPanic")
+    return fs
+
+
+def sim_shard(args):
+    workdir, name, num, depth, seed = args
+    behs = hq_model.behaviours(name, num, depth, seed, workdir)
+    return hq_model.guided_shard(workdir, name, behs)
+
 
 BUDGET = {
     # tier: (runs per shard, shards per profile, steps)
@@ -81,16 +99,23 @@ def regress_shard(workdir):
 
 
 def validate_shard(args):
+    """TLC on one recorded shard: every property formula of HQ.tla on every state (HQTrace) and, for the steps the model
+    covers, the comparison of the real transition with the model's transition function (HQConform; diagnostic)."""
     workdir, trace = args
-    out = common.tlc("HQTrace.tla", "HQTrace.cfg", workdir, env={"TRACE": trace}, workers=1, timeout=1800)
+    out = common.tlc("HQConform.tla", "HQConform.cfg", workdir, env={"TRACE": trace}, workers=1, timeout=1800)
     verdict = common.tlc_printed(out, "VERDICT")
     viols = common.tlc_printed(out, "VIOL")
+    ncomp = common.tlc_printed(out, "NCOMP")
     if not verdict or "Model checking completed. No error has been found." not in out:
         raise common.ToolError("trace validation did not complete on " + trace + ":\n" + out[-3000:])
     if verdict[-1]["diameter"] - 1 != verdict[-1]["lines"]:
         raise common.ToolError("trace not fully consumed: " + trace)
     states, gen = common.tlc_stats(out)
+    CONF[trace] = ncomp[-1]["n"] if ncomp else 0
     return trace, viols[-1] if viols else [], states, gen
+
+
+CONF = {}  # trace -> number of steps compared with the model
 
 
 def load_run(trace, run):
@@ -143,8 +168,19 @@ def run(pid, tier, seed):
         for profile in PROFILES[pid]:
             for s in range(nshards):
                 jobs.append((work, profile, s, runs, steps + (s % 3) * 20, seed))
+        nsim, dsim = SIM_BUDGET[tier]
+        sim_jobs = [(work, name, nsim, dsim, seed * 100 + k) for k, name in enumerate(sorted(hq_model.INSTANCES))]
         with cf.ThreadPoolExecutor(max_workers=max(2, common.NCPU - 2)) as ex:
+            sim_f = [ex.submit(sim_shard, j) for j in sim_jobs]
             shards = list(ex.map(gen_shard, jobs))
+            sims = [f.result() for f in sim_f]
+        n_walk_runs = sum(s[2]["runs"] for s in shards)
+        shards += sims
+        # exhaustive model checking of the design (independent of /repo; cached by the hash of the specification)
+        mc = hq_model.model_check(tier)
+        bad = [(r["cfg"], r["violated"]) for r in mc if r["violated"]]
+        if bad:
+            raise common.ToolError(f"the model itself violates {bad}: the specification needs attention (not a verdict about the code)")
         reg = regress_shard(work)
         if reg:
             shards.append(reg)
@@ -175,6 +211,9 @@ def run(pid, tier, seed):
                     a = l[k + 5:l.find('"', k + 5)]
                     actions[a] = actions.get(a, 0) + 1
         formulas = sorted({v["formula"] for v in violations})
+        divergences = {k: v for k, v in others.items() if k.startswith("AUX_Conf_")}
+        for k, v in sorted(divergences.items()):
+            print(f"CONFORMANCE-DIVERGENCE (diagnostic, not a verdict): {k} on {v} run(s): the real transition differs from HQModel")
         coverage = {
             "states": states,
             "transitions": gen,
@@ -187,7 +226,17 @@ def run(pid, tier, seed):
             "actions_covered": actions,
             "violated_formulas_of_this_property": formulas,
             "violated_formulas_of_other_properties_seen": others,
-            "checker_cmd": "tlc -workers 1 -config HQTrace.cfg HQTrace.tla (TRACE=<shard>) per shard",
+            "runs_from_random_walks": n_walk_runs,
+            "runs_from_model_behaviours": sum(s[2]["runs"] for s in sims),
+            "conformance": {"steps_compared_with_model_transition_functions": sum(CONF.get(s[0], 0) for s in shards),
+                            "divergences": divergences,
+                            "what": "HQConform.tla: reactor entry points, job layer and worker state machine of HQModel applied to the logged "
+                                    "pre-state and arguments, compared with the logged post-state (W2S, S2W, Exit, Cancel, Lose steps of single-node configurations)"},
+            "mc": {"formulas_of_this_property": mc_formulas(pid),
+                   "runs": [{k: r[k] for k in ("instance", "mode", "cfg", "distinct_states", "states_generated", "depth", "completed", "cached", "constants", "cmd")} for r in mc],
+                   "distinct_states_total": sum(r["distinct_states"] for r in mc),
+                   "exhaustive_within_constants": all(r["completed"] for r in mc)},
+            "checker_cmd": "tlc -workers 1 -config HQConform.cfg HQConform.tla (TRACE=<shard>) per shard; tlc -workers 8 -config MC_HQ_<inst>_<mode>.cfg MC_HQ.tla",
             "explanation": "states/transitions = states of real executions on which TLC evaluated every property formula "
                            "(trace validation); model-checking numbers of the design model are reported under 'mc' when present",
         }
